@@ -1,0 +1,42 @@
+//go:build verif
+
+// Verification hooks (add-only, compiled only with -tags verif). They expose
+// the unexported APK verifier entry point and the length-prefixed structure
+// parser to the out-of-tree correspondence harness in /verif (property C11);
+// no existing behaviour is changed.
+package apk
+
+import (
+	"os"
+
+	"github.com/sassoftware/relic/v8/signers"
+)
+
+// VerifVerifyFile calls verify.
+func VerifVerifyFile(f *os.File) ([]*signers.Signature, error) {
+	return verify(f, signers.VerifyOpts{})
+}
+
+// VerifUnmarshalSigners calls unmarshal with the type of the v2 signer list
+// and reports, per signer, the lengths of its fields.
+func VerifUnmarshalSigners(blob []byte) ([][3]int, error) {
+	var signerList []apkSigner
+	if err := unmarshal(blob, &signerList); err != nil {
+		return nil, err
+	}
+	out := make([][3]int, len(signerList))
+	for i, s := range signerList {
+		out[i] = [3]int{len(s.SignedData), len(s.Signatures), len(s.PublicKey)}
+	}
+	return out, nil
+}
+
+// VerifUnmarshalSignedData calls unmarshal with the type of a signer's signed
+// data and reports the number of digests, certificates and attributes.
+func VerifUnmarshalSignedData(blob []byte) ([3]int, error) {
+	var sd apkSignedData
+	if err := unmarshal(blob, &sd); err != nil {
+		return [3]int{}, err
+	}
+	return [3]int{len(sd.Digests), len(sd.Certificates), len(sd.Attributes)}, nil
+}
